@@ -117,7 +117,7 @@ def pick(rng, n, thorough):
     all nodes for n <= 10, three per rule above that in the quick tier; the moment oracle always uses all nodes)"""
     if thorough or n <= 10:
         return list(range(n))
-    return sorted({0, n - 1, rng.randrange(n), n // 2})[:4]
+    return sorted({0, n - 1, rng.randrange(n)})
 
 
 def rule_term(x, w):
@@ -131,6 +131,10 @@ def run(ctx):
     rng = ctx.rng
     ctx.proofs()
     reps = 3 if thorough else 1
+    jobs = []     # Coq correspondence checks are queued and evaluated concurrently at the end
+
+    def queue(name, ctype, ok, cases, meta, label, chunk, preamble=""):
+        jobs.append((name, ctype, ok, list(cases), list(meta), label, chunk, preamble))
 
     def fail(kind, what, inp, impl=None, expected=None):
         ctx.fail(kind, what, inp, impl, expected)
@@ -156,8 +160,7 @@ def run(ctx):
                 meta.append(inp)
     ok = ("fun c => let '(s, n, a, b, xs, ws) := c in match (if s then qnwsimp1 n a b else qnwtrap1 n a b) with "
           "| Some (mx, mw) => Qs_close %s mx xs && Qs_relclose %s mw ws | None => false end" % (T12, T12))
-    for i in ctx.coq_check("closed_form_1d", IMPORTS, "bool * nat * Q * Q * list Q * list Q", ok, cases, chunk=40):
-        ctx.mismatch("C08.Model.qnwtrap1/qnwsimp1 vs quad._qnwtrap1/_qnwsimp1", meta[i])
+    queue("closed_form_1d", "bool * nat * Q * Q * list Q * list Q", ok, cases, meta, "C08.Model.qnwtrap1/qnwsimp1 vs quad._qnwtrap1/_qnwsimp1", 40, "")
 
     # ================================================================ closed-form tensor products
     cases, meta = [], []
@@ -195,14 +198,13 @@ def run(ctx):
                         scale = max(abs(ex), sum(abs(wv) * abs(math.prod(xv ** e for xv, e in zip(row, es))) for row, wv in zip(fx, fw)))
                         if abs(s - ex) > Fraction(1, 10**12) * scale:
                             fail("tensor_moment", "%s product rule not exact on monomial %s" % (name, es), inp, float(s), float(ex))
-            if len(weights) <= 1500:
+            if len(weights) <= 600:
                 cases.append(tup(blit(name == "qnwsimp"), "[" + "; ".join(tup(natlit(n), qlit(p[0]), qlit(p[1])) for n, p in zip(shp, ab)) + "]",
                                  qlist2(fl2(nodes)), qlist(fl(weights))))
                 meta.append(inp)
     ok = ("fun c => let '(s, ps, xs, ws) := c in match (if s then qnwsimp ps else qnwtrap ps) with "
           "| Some (mx, mw) => Qss_close %s mx xs && Qs_relclose %s mw ws | None => false end" % (T12, T12))
-    for i in ctx.coq_check("closed_form_tensor", IMPORTS, "bool * list (nat * Q * Q) * list (list Q) * list Q", ok, cases, chunk=6):
-        ctx.mismatch("C08.Model.make_multidim (gridmake / reversed ckron) vs quad._make_multidim_func", meta[i])
+    queue("closed_form_tensor", "bool * list (nat * Q * Q) * list (list Q) * list Q", ok, cases, meta, "C08.Model.make_multidim (gridmake / reversed ckron) vs quad._make_multidim_func", 6, "")
 
     # ================================================================ Gauss-Legendre: kernel, affine map, qnwunif, tensor
     kcases, kmeta, acases, ameta, tcases, tmeta, ucases, umeta, rcases, rmeta = [], [], [], [], [], [], [], [], [], []
@@ -246,16 +248,13 @@ def run(ctx):
             ucases.append(tup(qlist(wa), qlist([a]), qlist([b]), qlist(wu)))
             umeta.append(inp)
     ok = "fun c => let '(n, x, w) := c in node_ok %s %s (lege_node n 1 x) w" % (T13, T12)
-    for i in ctx.coq_check("lege_kernel", IMPORTS, "nat * Q * Q", ok, kcases, chunk=12):
-        ctx.mismatch("C08.Model.lege_eval/lege_weight (Legendre recurrence and weight formula) vs quad._qnwlege1 output", kmeta[i])
+    queue("lege_kernel", "nat * Q * Q", ok, kcases, kmeta, "C08.Model.lege_eval/lege_weight (Legendre recurrence and weight formula) vs quad._qnwlege1 output", 12, "")
     ok = ("fun c => let '(a, b, r, xs, ws) := c in let '(mx, mw) := affine_rule a b r in "
           "Qs_close %s mx xs && Qs_relclose %s mw ws" % (T12, T12))
-    for i in ctx.coq_check("lege_affine", IMPORTS, "Q * Q * (list Q * list Q) * list Q * list Q", ok, acases, chunk=10):
-        ctx.mismatch("C08.Model.affine_rule (xm + xl t, xl w) vs quad._qnwlege1 on [a,b]", ameta[i])
+    queue("lege_affine", "Q * Q * (list Q * list Q) * list Q * list Q", ok, acases, ameta, "C08.Model.affine_rule (xm + xl t, xl w) vs quad._qnwlege1 on [a,b]", 10, "")
     ok = ("fun c => let '(n, a, b, zs, xs, ws) := c in let '(mx, mw) := qnwlege1_from_roots n a b zs in "
           "Qs_close %s mx xs && Qs_relclose %s mw ws" % (T12, T12))
-    for i in ctx.coq_check("lege_from_roots", IMPORTS, "nat * Q * Q * list Q * list Q * list Q", ok, rcases, chunk=4):
-        ctx.mismatch("C08.Model.qnwlege1_from_roots (mirrored placement of roots, weights) vs quad._qnwlege1", rmeta[i])
+    queue("lege_from_roots", "nat * Q * Q * list Q * list Q * list Q", ok, rcases, rmeta, "C08.Model.qnwlege1_from_roots (mirrored placement of roots, weights) vs quad._qnwlege1", 4, "")
     # multi-dimensional Legendre / uniform
     lshapes = [(1, 1), (1, 2), (2, 1), (2, 2), (3, 3), (30, 2), (2, 30), (1, 30), (5, 7), (2, 2, 2), (1, 2, 3), (3, 1, 2), (4, 4, 4), (30, 3, 4), (2, 3, 30)]
     for _ in range(10 * reps):
@@ -289,20 +288,18 @@ def run(ctx):
                     scale = max(abs(ex), sum(abs(t) for t in terms))
                     if abs(s - ex) > Fraction(1, 10**10) * scale:
                         fail("tensor_moment", "%s product rule not exact on monomial %s" % (name, es), inp, float(s), float(ex))
-            if name == "qnwlege" and len(weights) <= 1000:
+            if name == "qnwlege" and len(weights) <= 500:
                 tcases.append(tup("[" + "; ".join(rule_term(fl(x), fl(w)) for x, w in rules) + "]", qlist2(fl2(nodes)), qlist(fl(weights))))
                 tmeta.append(inp)
-            if name == "qnwunif" and len(weights) <= 400:
+            if name == "qnwunif" and len(weights) <= 150:
                 lw = Q.qnwlege(list(shp), a, b)[1]
                 ucases.append(tup(qlist(fl(lw)), qlist([p[0] for p in ab]), qlist([p[1] for p in ab]), qlist(fl(weights))))
                 umeta.append(inp)
     ok = ("fun c => let '(rules, xs, ws) := c in match tensor_rule rules with "
           "| Some (mx, mw) => Qss_eqb mx xs && Qs_relclose %s mw ws | None => false end" % T12)
-    for i in ctx.coq_check("gauss_tensor", IMPORTS, "list (list Q * list Q) * list (list Q) * list Q", ok, tcases, chunk=4):
-        ctx.mismatch("C08.Model.tensor_rule (gridmake / reversed ckron) vs quad._make_multidim_func(_qnwlege1)", tmeta[i])
+    queue("gauss_tensor", "list (list Q * list Q) * list (list Q) * list Q", ok, tcases, tmeta, "C08.Model.tensor_rule (gridmake / reversed ckron) vs quad._make_multidim_func(_qnwlege1)", 4, "")
     ok = "fun c => let '(lw, a, b, uw) := c in Qs_relclose %s (unif_weights lw a b) uw" % T12
-    for i in ctx.coq_check("qnwunif_weights", IMPORTS, "list Q * list Q * list Q * list Q", ok, ucases, chunk=30):
-        ctx.mismatch("C08.Model.unif_weights vs quad.qnwunif", umeta[i])
+    queue("qnwunif_weights", "list Q * list Q * list Q * list Q", ok, ucases, umeta, "C08.Model.unif_weights vs quad.qnwunif", 30, "")
 
     # ================================================================ qnwnorm / qnwlogn
     hcases, hmeta, ncases, nmeta, mcases, mmeta = [], [], [], [], [], []
@@ -335,11 +332,9 @@ def run(ctx):
             if not (np.array_equal(np.atleast_1d(xl), np.exp(np.atleast_1d(xn))) and np.array_equal(wl, wn)):
                 fail("logn_image", "qnwlogn is not the exponential image of qnwnorm", {"call": "qnwlogn", "n": n, "mu": mu / 16, "sig2": s * s / 64})
     ok = "fun c => let '(n, x, w) := c in node_ok %s %s (herm_node n x) w" % (T13, T12)
-    for i in ctx.coq_check("hermite_kernel", IMPORTS, "nat * Q * Q", ok, hcases, chunk=12):
-        ctx.mismatch("C08.Model.herm_eval/herm_weight (Hermite recurrence, weight formula) vs quad._qnwnorm1 output", hmeta[i])
+    queue("hermite_kernel", "nat * Q * Q", ok, hcases, hmeta, "C08.Model.herm_eval/herm_weight (Hermite recurrence, weight formula) vs quad._qnwnorm1 output", 12, "")
     ok = "fun c => let '(xs, s, mu, ys) := c in Qs_close %s (norm_map1 xs s mu) ys" % T12
-    for i in ctx.coq_check("qnwnorm_map_1d", IMPORTS, "list Q * Q * Q * list Q", ok, ncases, chunk=30):
-        ctx.mismatch("C08.Model.norm_map1 vs quad.qnwnorm (d=1 affine map)", nmeta[i])
+    queue("qnwnorm_map_1d", "list Q * Q * Q * list Q", ok, ncases, nmeta, "C08.Model.norm_map1 vs quad.qnwnorm (d=1 affine map)", 30, "")
     nshapes = [(1, 1), (2, 2), (1, 3), (3, 2), (5, 4), (30, 2), (2, 30), (2, 2, 2), (3, 1, 2), (4, 3, 5), (2, 3, 30), (7, 7)]
     for _ in range(8 * reps):
         d = rng.choice([2, 3])
@@ -389,13 +384,12 @@ def run(ctx):
                         cij = sum(wv * (row[i] - fmu[i]) * (row[j] - fmu[j]) for row, wv in zip(fx, fw))
                         if abs(cij - fs[i][j]) > tol * (1 + abs(fs[i][j])):
                             fail("norm_cov", "qnwnorm does not reproduce the covariance matrix (entry %d,%d)" % (i, j), inp, float(cij), float(fs[i][j]))
-            if len(weights) <= 400:
+            if len(weights) <= 200:
                 R = la.sqrtm(sig2) if usesqrtm else la.cholesky(sig2)
                 mcases.append(tup(qlist2(fl2(nodes0)), qlist2(fl2(np.real(R))), qlist(fmu), qlist2(fx)))
                 mmeta.append(inp)
     ok = "fun c => let '(xs, R, mu, ys) := c in Qss_close %s (norm_map xs R mu) ys" % T12
-    for i in ctx.coq_check("qnwnorm_map", IMPORTS, "list (list Q) * list (list Q) * list Q * list (list Q)", ok, mcases, chunk=6):
-        ctx.mismatch("C08.Model.norm_map (nodes.R + mu) vs quad.qnwnorm", mmeta[i])
+    queue("qnwnorm_map", "list (list Q) * list (list Q) * list Q * list (list Q)", ok, mcases, mmeta, "C08.Model.norm_map (nodes.R + mu) vs quad.qnwnorm", 6, "")
 
     # ================================================================ qnwbeta / qnwgamma
     bcases, bmeta, gcases, gmeta = [], [], [], []
@@ -416,7 +410,7 @@ def run(ctx):
             ctx.count("qnwbeta")
             for kind, det in check_rule_1d(x, w, 0, 1, mom_beta(a, b, 2 * n - 1), Fraction(1, 10**6), True):
                 fail("beta_" + kind, "qnwbeta: %s" % det, inp, [[float(v) for v in x], [float(v) for v in w]])
-            for i in pick(rng, n, thorough)[:3 if n > 20 else 4]:
+            for i in (pick(rng, n, thorough) if (rep == 0 or n <= 12 or thorough) else []):
                 bcases.append(tup(natlit(n), qlit(a - 1), qlit(b - 1), qlit(1 - 2 * x[i]), qlit(w[i])))
                 bmeta.append(dict(inp, node=i))
             a = Fraction(rng.randrange(13, 512), 64)
@@ -436,11 +430,9 @@ def run(ctx):
                 gcases.append(tup(natlit(n), qlit(a - 1), qlit(x[i] / sc), qlit(w[i])))
                 gmeta.append(dict(inp, node=i))
     ok = "fun c => let '(n, a, b, z, w) := c in node_ok %s %s (jac_node n a b z) w" % (T13, T6)
-    for i in ctx.coq_check("jacobi_kernel", IMPORTS, "nat * Q * Q * Q * Q", ok, bcases, chunk=10):
-        ctx.mismatch("C08.Model.jac_eval/jac_weight (Jacobi recurrence, weight formula, gamma factors) vs quad._qnwbeta1 output", bmeta[i])
+    queue("jacobi_kernel", "nat * Q * Q * Q * Q", ok, bcases, bmeta, "C08.Model.jac_eval/jac_weight (Jacobi recurrence, weight formula, gamma factors) vs quad._qnwbeta1 output", 10, "")
     ok = "fun c => let '(n, a, z, w) := c in node_ok %s %s (lag_node n a z) w" % (T12, T9)
-    for i in ctx.coq_check("laguerre_kernel", IMPORTS, "nat * Q * Q * Q", ok, gcases, chunk=10):
-        ctx.mismatch("C08.Model.lag_eval/lag_weight (Laguerre recurrence, weight formula, gamma factor) vs quad._qnwgamma1 output", gmeta[i])
+    queue("laguerre_kernel", "nat * Q * Q * Q", ok, gcases, gmeta, "C08.Model.lag_eval/lag_weight (Laguerre recurrence, weight formula, gamma factor) vs quad._qnwgamma1 output", 10, "")
     # multi-dimensional beta / gamma: tensor order
     for shp in [(2, 3), (3, 2), (1, 4), (5, 5), (2, 2, 2), (3, 2, 4), (30, 2), (2, 3, 9)]:
         d = len(shp)
@@ -483,8 +475,7 @@ def run(ctx):
         ecases.append(tup(natlit(N), qlist([p[0] for p in ab]), qlist([p[1] for p in ab]), qlist(fw)))
         emeta.append(inp)
     ok = "fun c => let '(n, a, b, ws) := c in Qs_relclose %s (equi_weights n a b) ws" % T12
-    for i in ctx.coq_check("qnwequi_weights", IMPORTS, "nat * list Q * list Q * list Q", ok, ecases, chunk=30):
-        ctx.mismatch("C08.Model.equi_weights vs quad.qnwequi", emeta[i])
+    queue("qnwequi_weights", "nat * list Q * list Q * list Q", ok, ecases, emeta, "C08.Model.equi_weights vs quad.qnwequi", 30, "")
     for n in list(range(1, 31)):
         a, b = dyadic_interval(rng)
         x, w = Q.qnwcheb(n, float(a), float(b))
@@ -529,14 +520,23 @@ def run(ctx):
         scale = max(1, sum(abs(t) for t in terms))
         if abs(frac(out) - ex) > Fraction(1, 10**12) * scale:
             fail("quadrect_dot", "quadrect is not weights.f(nodes)", inp, float(out), float(ex))
-        if len(fw) <= 400:
+        if len(fw) <= 200:
             qcases.append(tup(natlist(es), qlit(cs), qlist2(fx), qlist(fw), qlit(frac(out)), qlit(scale)))
             qmeta.append(inp)
     ok = ("fun c => let '(es, cs, xs, ws, out, scale) := c in "
           "Qle_bool (Qabs (quadrect (fun row => cs + monomial es row) xs ws - out)) (%s * scale)" % T12)
-    for i in ctx.coq_check("quadrect", IMPORTS, "list nat * Q * list (list Q) * list Q * Q * Q", ok, qcases, chunk=20,
-                           preamble="From Coq Require Import Qabs."):
-        ctx.mismatch("C08.Model.quadrect vs quad.quadrect", qmeta[i])
+    queue("quadrect", "list nat * Q * list (list Q) * list Q * Q * Q", ok, qcases, qmeta, "C08.Model.quadrect vs quad.quadrect", 20, "From Coq Require Import Qabs.")
+
+    from concurrent.futures import ThreadPoolExecutor as _TPE
+
+    def _one(job):
+        name, ctype, ok, cases, meta, label, chunk, preamble = job
+        return job, ctx.coq_check(name, IMPORTS, ctype, ok, cases, chunk=chunk, preamble=preamble)
+    with _TPE(max_workers=4) as ex:
+        results = list(ex.map(_one, jobs))
+    for (name, ctype, ok, cases, meta, label, chunk, preamble), bad in results:
+        for i in bad:
+            ctx.mismatch(label, meta[i])
 
 
 def replay(data):
